@@ -177,56 +177,93 @@ class RecIO(io.BytesIO):
         return super().write(b)
 
 
+class RecFile:
+    """Proxy of a real log file that records each write (a file-backed WireLog)."""
+    def __init__(self, f, records, tag):
+        self._f, self.records, self.tag = f, records, tag
+
+    def write(self, b):
+        self.records.append((self.tag, bytes(b)))
+        return self._f.write(b)
+
+    def __getattr__(self, name):
+        return getattr(self._f, name)
+
+
+_WL_COUNT = [0]
+
+
 def make_wl(spec, records):
-    """Real WireLog (memory buffers) whose buffers record each write."""
+    """Real WireLog (memory buffers, or files under the check's scratch dir) whose buffers record each write.
+    spec.get("opened") False: created but not opened (a WireLogDoer will open it)."""
     from hio.core import wiring
+    from harness import core
     mode = spec["mode"]
     if mode == 0:
         return None
+    kw = {}
+    if spec.get("filed"):
+        _WL_COUNT[0] += 1
+        head = core.scratch_dir() / "c09wl" / f"{os.getpid()}_{_WL_COUNT[0]}"
+        head.mkdir(parents=True, exist_ok=True)
+        kw = {"filed": True, "temp": False, "headDirPath": str(head), "name": "c09"}
     if mode == 1:
-        wl = wiring.WireLog(rxed=spec["rxed"], txed=spec["txed"], samed=False, filed=False, fmt=b"%(data)b")
+        wl = wiring.WireLog(rxed=spec["rxed"], txed=spec["txed"], samed=False, fmt=b"%(data)b", **kw)
     else:
-        wl = wiring.WireLog(rxed=spec["rxed"], txed=spec["txed"], samed=True, filed=False)
-    wl.reopen()
-    wrap_wl(wl, records)
+        wl = wiring.WireLog(rxed=spec["rxed"], txed=spec["txed"], samed=True, **kw)
+    if spec.get("opened", True):
+        wl.reopen()
+        wrap_wl(wl, records)
     return wl
 
 
 def wrap_wl(wl, records):
     """Replace the (freshly created, open) buffers of the log by recording ones; stale closed handles stay."""
-    fresh = lambda b: b is not None and not b.closed and not isinstance(b, RecIO)
+    fresh = lambda b: b is not None and not b.closed and not isinstance(b, (RecIO, RecFile))
+    rec = lambda b, tag: RecFile(b, records, tag) if wl.filed else RecIO(records, tag)
     if wl.samed:
         if fresh(wl.rxl) or fresh(wl.txl):
-            shared = RecIO(records, "shared")
+            shared = rec(wl.rxl if fresh(wl.rxl) else wl.txl, "shared")
             if fresh(wl.rxl):
                 wl.rxl = shared
             if fresh(wl.txl):
                 wl.txl = shared
     else:
         if fresh(wl.rxl):
-            wl.rxl = RecIO(records, "rxbuf")
+            wl.rxl = rec(wl.rxl, "rxbuf")
         if fresh(wl.txl):
-            wl.txl = RecIO(records, "txbuf")
+            wl.txl = rec(wl.txl, "txbuf")
+
+
+def wl_states(case):
+    """State of the attached WireLog before the first op and after each op, as the harness reads the WireLog /
+    WireLogDoer contract: dict(opened, txed, rxed, samed, fresh) ; fresh = the op (re)created the log's buffers.
+    ops: close | reopen {rxed,txed,samed} | enter (WireLogDoer.enter: opens only a log that is not open) | exit."""
+    spec = case["wl"]
+    st = {"opened": bool(spec.get("opened", True)), "txed": spec["txed"], "rxed": spec["rxed"],
+          "samed": spec["mode"] == 2, "fresh": False}
+    out = [dict(st)]
+    for op in case["ops"]:
+        st["fresh"] = False
+        if op[0] == "wl":
+            if op[1] in ("close", "exit"):
+                st["opened"] = False
+            elif op[1] == "enter":
+                if not st["opened"]:
+                    st["opened"], st["fresh"] = True, True
+            else:
+                for k in ("txed", "rxed", "samed"):
+                    if op[2].get(k) is not None:
+                        st[k] = op[2][k]
+                st["opened"], st["fresh"] = True, True
+        out.append(dict(st))
+    return out
 
 
 def wl_flags(case):
     """(txed, rxed) in force while each op runs, and after the last one: list of pairs, one per op + 1."""
-    spec = case["wl"]
-    on = bool(spec["mode"])
-    txed, rxed, opened = spec["txed"], spec["rxed"], True
-    out = []
-    for op in case["ops"]:
-        out.append((on and opened and txed, on and opened and rxed))
-        if op[0] == "wl":
-            if op[1] == "close":
-                opened = False
-            else:
-                kw = op[2]
-                txed = kw.get("txed", txed) if kw.get("txed") is not None else txed
-                rxed = kw.get("rxed", rxed) if kw.get("rxed") is not None else rxed
-                opened = True
-    out.append((on and opened and txed, on and opened and rxed))
-    return out
+    on = bool(case["wl"]["mode"])
+    return [(on and st["opened"] and st["txed"], on and st["opened"] and st["rxed"]) for st in wl_states(case)]
 
 
 def build(kind, conn0, bs, wl, tymth=None, bufs=None):
@@ -280,6 +317,10 @@ def run_impl(case):
     tymist = tyming.Tymist()
     records = []
     wl = make_wl(case["wl"], records)
+    doer = None
+    if wl is not None:
+        from hio.core import wiring
+        doer = wiring.WireLogDoer(wl=wl)
     client = is_client(case["kind"])
     bufs = None
     if case.get("bufs") and client:       # the owner hands its own buffers to the client (empty or preloaded txbs, empty rxbs)
@@ -328,6 +369,11 @@ def run_impl(case):
                 if wl is not None:
                     if op[1] == "close":
                         wl.close()
+                    elif op[1] == "enter":        # the life cycle of a WireLogDoer that owns the log
+                        doer.enter(temp=None)
+                        wrap_wl(wl, records)
+                    elif op[1] == "exit":
+                        doer.exit()
                     else:
                         wl.reopen(**{a: b for a, b in op[2].items() if b is not None})
                         wrap_wl(wl, records)
@@ -340,7 +386,8 @@ def run_impl(case):
         if c.cs is not sock:
             raise AssertionError("connection replaced its socket")
         snaps.append({"res": res, "calls": sock.calls, "tx": len(otx), "rx": len(orx), "cut": bool(c.cutoff),
-                      "ks": len(sock.accepted), "kr": len(sock.delivered), "nrec": len(records)})
+                      "ks": len(sock.accepted), "kr": len(sock.delivered), "nrec": len(records),
+                      "rd": None if wl is None else [None if x is None else bytes(x).hex() for x in (wl.readTx(), wl.readRx())]})
     if sock.misuse:
         raise AssertionError("fake socket misuse: %s" % sock.misuse)
     obs = {"snaps": snaps,
@@ -349,12 +396,13 @@ def run_impl(case):
            "txbs": bytes(otx).hex(), "rxbs": bytes(orx).hex(), "ident": ident,
            "ksent": bytes(sock.accepted).hex(), "krecvd": bytes(sock.delivered).hex(),
            "taken": bytes(taken).hex(),
-           "wlog": parse_records(case["wl"], records, who)}
+           "wlog": parse_records(case["wl"], records, who),
+           "raw": [[tag, b.hex()] for tag, b in records]}
     if wl is not None:
-        static = case["wl"]["mode"] == 1 and not any(op[0] == "wl" for op in case["ops"])
+        static = case["wl"]["mode"] == 1 and case["wl"].get("opened", True) and not any(op[0] == "wl" for op in case["ops"])
         obs["readTx"] = (wl.readTx() or b"").hex() if static else None
         obs["readRx"] = (wl.readRx() or b"").hex() if static else None
-        wl.close()
+        wl.close(clear=True)
     return obs
 
 
@@ -397,6 +445,26 @@ def oracle(case, obs):
         if lrx != (krecvd[p_kr:sn["kr"]] if rxed else b""):
             return f"op {n} {op[0]}: wire log rx != bytes actually received" if rxed else f"op {n} {op[0]}: the disabled rx wire log received data"
         p_ks, p_kr, p_n = sn["ks"], sn["kr"], sn["nrec"]
+    # what the log holds when read back: everything written since its buffers were last (re)created by a reopen or by
+    # a WireLogDoer entering while the log was NOT open; entering with the log already open must keep what is there
+    if spec["mode"]:
+        states = wl_states(case)
+        cur = {"rxbuf": b"", "txbuf": b"", "shared": b""}
+        p_n = 0
+        for n, (op, sn) in enumerate(zip(case["ops"], obs["snaps"])):
+            st = states[n + 1]
+            if st["fresh"]:
+                cur = {"rxbuf": b"", "txbuf": b"", "shared": b""}
+            for tag, hx_ in obs["raw"][p_n:sn["nrec"]]:
+                cur[tag] += H(hx_)
+            p_n = sn["nrec"]
+            want_tx = (cur["shared"] if st["samed"] else cur["txbuf"]) if (st["opened"] and st["txed"]) else None
+            want_rx = (cur["shared"] if st["samed"] else cur["rxbuf"]) if (st["opened"] and st["rxed"]) else None
+            got_tx, got_rx = [None if x is None else H(x) for x in sn["rd"]]
+            if got_tx != want_tx:
+                return f"op {n} {op}: WireLog.readTx() holds {None if got_tx is None else len(got_tx)} bytes, {None if want_tx is None else len(want_tx)} were logged since it was opened"
+            if got_rx != want_rx:
+                return f"op {n} {op}: WireLog.readRx() holds {None if got_rx is None else len(got_rx)} bytes, {None if want_rx is None else len(want_rx)} were logged since it was opened"
     if obs.get("readTx") is not None:
         if spec["txed"] and H(obs["readTx"]) != ksent:
             return "WireLog.readTx() != bytes actually sent"
@@ -515,7 +583,7 @@ def _snap(s):
 def coq_cfg(case):
     spec = case["wl"]
     return "{| Stream.kd := %s; Stream.wl_tx := %s; Stream.wl_rx := %s |}" % (
-        COQ_KIND[case["kind"]], coq_bool(bool(spec["mode"]) and spec["txed"]), coq_bool(bool(spec["mode"]) and spec["rxed"]))
+        COQ_KIND[case["kind"]], coq_bool(wl_flags(case)[0][0]), coq_bool(wl_flags(case)[0][1]))
 
 
 def _rec(r):
@@ -611,6 +679,16 @@ def directed():
             ["tx", p1], ["sends", ["acc", 4]], ["recvs", [["data", "0102"], ["data", "0304", "dead"], blk]],
             ["sends", ["acc", 2]], ["once", ["data", "05"]], ["recvs", [["data", "06"], fault_ans(kind, errno.ECONNRESET)]],
             ["sends", ["acc", 2]]]})
+        # a WireLogDoer owns the attached log: enter with the log already open (must keep it), exit, enter again, with
+        # traffic before and after; memory and file-backed; log opened beforehand or by the doer
+        for mode in (1, 2):
+            for filed in (False, True):
+                for opened in (True, False):
+                    traffic = lambda: [["sends", ["acc", 2]], ["recvs", [["data", "0a0b"], blk]], ["service", ["acc", 1], [["data", "0c"]]]]
+                    ops = [["tx", big[:80]]] + traffic() + [["wl", "enter"]] + traffic() + [["wl", "enter"]] + traffic() + \
+                          [["wl", "exit"]] + traffic() + [["wl", "enter"]] + traffic() + [["wl", "close"]] + [["wl", "enter"]] + traffic()
+                    out.append({"kind": kind, "conn0": True, "bs": 16, "ops": ops,
+                                "wl": {"mode": mode, "rxed": True, "txed": True, "filed": filed, "opened": opened}})
         # the owner supplies its own (empty / preloaded) txbs and rxbs, queues on them directly and reads from them
         if is_client(kind):
             for pre in ("", "0102030405"):
@@ -645,6 +723,10 @@ def gen_case(rng, tier):
     kind = rng.choice(KINDS)
     bs = rng.choice([1, 4, 16, 64])
     spec = {"mode": rng.choice([0, 1, 1, 2, 2]), "rxed": rng.random() < 0.85, "txed": rng.random() < 0.85}
+    if spec["mode"] and rng.random() < 0.15:
+        spec["filed"] = True
+    if spec["mode"] and rng.random() < 0.1:
+        spec["opened"] = False
     faulty = rng.random() < 0.3
     conn0 = rng.random() < 0.9
     nops = rng.choice([4, 8, 12, 20, 30])
@@ -699,8 +781,13 @@ def gen_case(rng, tier):
         elif r < 0.96:
             ops.append(["take"])
         elif r < 0.985:
-            if rng.random() < 0.3:
+            r2 = rng.random()
+            if r2 < 0.2:
                 ops.append(["wl", "close"])
+            elif r2 < 0.5:
+                ops.append(["wl", "enter"])
+            elif r2 < 0.6:
+                ops.append(["wl", "exit"])
             else:
                 kw = {"rxed": rng.choice([None, True, False]), "txed": rng.choice([None, True, False])}
                 if spec["mode"] == 2:
